@@ -228,3 +228,14 @@ func VerifRecordsKind(buf []byte) string {
 	}
 	return "default"
 }
+
+// VerifConst: package constants compared by value with the model.
+func VerifConst(name string) int {
+	switch name {
+	case "maximumRecordOverhead":
+		return maximumRecordOverhead
+	case "recordBatchOverhead":
+		return recordBatchOverhead
+	}
+	return -1
+}
